@@ -298,6 +298,31 @@ def check(case):
             e = float(np.abs(rx[_slab(nd, ax, gi)] - full[_slab(nd, ax, gi)]).max() / sc)
             res.expect_small("solver-vs-reported", e, 1e-8, f"solver-vs-reported:{name}:ax{ax}",
                              f"ghost values in the solver's solution differ from the reported ones on axis {ax} of {name}")
+    # (3b) time-dependent boundary data: on the (now clean) variable ONLY the data c are re-assigned, through the property
+    # setter, and the variable is solved again: the solver's rows, its raw ghost values and the reported ones must all
+    # reflect the new data
+    bc_t = copy.deepcopy(bc)
+    for ax in range(nd):
+        for sd, nm in zip(('lo', 'hi'), SIDES[ax]):
+            newc = 2.0 * np.array(bc[ax][sd]['c'], float) + 0.3
+            bc_t[ax][sd]['c'] = newc.tolist()
+            f = getattr(phi.BCs, nm)
+            f.c = newc.reshape(f.c.shape)
+    tl_t = [pf.transientTerm(phi, P['dt'], 1.0)] + problem.spatial_terms(m, dict(P, scheme='upwind' if P['scheme'] == 'tvd' else P['scheme']))
+    pf.solvePDE(phi, tl_t, externalsolver=rec)
+    full_t = np.asarray(phi._value, float)
+    if np.all(np.isfinite(full_t)):
+        _check_full(res, geo, name, bc_t, full_t, "solvePDE after re-assigning c", d)
+        _check_rows(res, geo, name, phi, bc_t, d, "solvePDE after re-assigning c")
+        rx = np.asarray(raw['x'], float).reshape(full_shape(d))
+        sct = np.abs(full_t).max() + 1e-300
+        for ax in range(nd):
+            if is_periodic(bc[ax]) and abs(geo.w[ax][-1] / geo.w[ax][0] - 1.0) > 1e-12:
+                continue
+            for gi in (0, -1):
+                e = float(np.abs(rx[_slab(nd, ax, gi)] - full_t[_slab(nd, ax, gi)]).max() / sct)
+                res.expect_small("solver-vs-reported-c", e, 1e-8, f"solver-vs-reported-after-c:{name}:ax{ax}",
+                                 f"after re-assigning only c: ghost values in the solver's solution differ from the reported ones on axis {ax} of {name}")
     # two variables on ONE boundary-condition object, conditions edited after both exist, apply_BCs() on each, then a solve of
     # the second: its reported values and the solver's rows must both reflect the edited conditions
     # (without the second variable's own apply_BCs this would be the known finding K3 of C09; with it, it must work)
